@@ -544,11 +544,12 @@ def main(rep, tier):
         for decl in ((("b", "c", "a"),) if tier == "quick" else itertools.permutations(("a", "b", "c"))):
             for sh in range(8):
                 jobs.append(dict(module="c16", func="nested", kwargs=dict(decl=list(decl), src=src, shard=sh), timeout=600 if tier == "quick" else 1800))
-    for sh in range(8):  # a component whose own key ends in 'init_args'
-        jobs.append(dict(module="c16", func="nested", kwargs=dict(decl=["b", "c", "a"], src="c", shard=sh, bname="w_init_args"), timeout=600 if tier == "quick" else 1800))
-    for src in (("c",) if tier == "quick" else ("a", "c")):  # the linked parameter two levels below the component (b.inner.init_args.leaf.init_args.d)
+    # nested targets two levels down and/or below a component whose own key ends in 'init_args'. The quick tier runs the combination
+    # (both code paths in one family of 8 shards); the thorough tier runs every combination for both sources.
+    combos = [("c", 2, "w_init_args")] if tier == "quick" else [(src, d, b) for src in ("a", "c") for d, b in ((2, "b"), (1, "w_init_args"), (2, "w_init_args"))]
+    for src, depth_, bname_ in combos:
         for sh in range(8):
-            jobs.append(dict(module="c16", func="nested", kwargs=dict(decl=["b", "c", "a"], src=src, shard=sh, depth=2), timeout=600 if tier == "quick" else 1800))
+            jobs.append(dict(module="c16", func="nested", kwargs=dict(decl=["b", "c", "a"], src=src, shard=sh, depth=depth_, bname=bname_), timeout=600 if tier == "quick" else 1800))
     if tier == "thorough":
         for sh in range(16):
             jobs.append(dict(module="c16", func="e2e", kwargs=dict(names=["a", "b", "c"], decl=["c", "a", "b"], shard=sh, shard_bits=4, typed=["b"]), timeout=1800))
